@@ -52,18 +52,18 @@ fn to_control(&self) -> (r: ControlMessage)
 pub fn priority_new() -> (r: (PrioritySender, PriorityReceiver))
     ensures
         // what is sent with a priority is received from the queue of that priority: each sender field is the other end of the receiver field of the same name
-        r.0.normal.which == r.1.normal.which, // OBL:C10.priority_new.each_sender_is_wired_to_the_receiver_of_its_priority
-        r.0.high.which == r.1.high.which, // OBL:C10.priority_new.each_sender_is_wired_to_the_receiver_of_its_priority
-        r.0.urgent.which == r.1.urgent.which, // OBL:C10.priority_new.each_sender_is_wired_to_the_receiver_of_its_priority
+        r.0.normal.which == r.1.normal.which, // OBL:C10+C09+C07.priority_new.each_sender_is_wired_to_the_receiver_of_its_priority
+        r.0.high.which == r.1.high.which, // OBL:C10+C09+C07.priority_new.each_sender_is_wired_to_the_receiver_of_its_priority
+        r.0.urgent.which == r.1.urgent.which, // OBL:C10+C09+C07.priority_new.each_sender_is_wired_to_the_receiver_of_its_priority
 //@ item PrioritySender::send
 //@ header
 pub fn send(&self, message: ControlMessage, priority: Priority, env: &mut Env)
     requires wf_tx(self),
     ensures
         // the message is appended to exactly the queue of its priority; the other two are untouched
-        priority is Normal ==> final(env).normal@ == old(env).normal@.push(message) && final(env).high == old(env).high && final(env).urgent == old(env).urgent, // OBL:C10.send.normal_routes_to_normal
-        priority is High ==> final(env).high@ == old(env).high@.push(message) && final(env).normal == old(env).normal && final(env).urgent == old(env).urgent, // OBL:C10.send.high_routes_to_high
-        priority is Urgent ==> final(env).urgent@ == old(env).urgent@.push(message) && final(env).normal == old(env).normal && final(env).high == old(env).high, // OBL:C10.send.urgent_routes_to_urgent
+        priority is Normal ==> final(env).normal@ == old(env).normal@.push(message) && final(env).high == old(env).high && final(env).urgent == old(env).urgent, // OBL:C10+C09+C07.send.normal_routes_to_normal
+        priority is High ==> final(env).high@ == old(env).high@.push(message) && final(env).normal == old(env).normal && final(env).urgent == old(env).urgent, // OBL:C10+C09+C07.send.high_routes_to_high
+        priority is Urgent ==> final(env).urgent@ == old(env).urgent@.push(message) && final(env).normal == old(env).normal && final(env).high == old(env).high, // OBL:C10+C09+C07.send.urgent_routes_to_urgent
         same_world(old(env), final(env)), final(env).now == old(env).now,
 //@ item PriorityReceiver::recv
 //@ header
@@ -73,35 +73,35 @@ pub fn recv(&mut self, stop_timer: &mut Option<Timer>, env: &mut Env) -> (r: Opt
         same_world(old(env), final(env)),
         // ---- timer-derived control (C06) ----
         // returned only once the deadline has passed, carrying the timer's flag and kind; the timer is disarmed
-        (*old(stop_timer)) is Some && (*final(stop_timer)) is None ==> final(env).now@ >= (*old(stop_timer))->Some_0.until.t, // OBL:C06.recv.no_timer_control_before_deadline
+        (*old(stop_timer)) is Some && (*final(stop_timer)) is None ==> final(env).now@ >= (*old(stop_timer))->Some_0.until.t, // OBL:C06+C09.recv.no_timer_control_before_deadline
         (*old(stop_timer)) is Some && (*final(stop_timer)) is None ==> r is Some && r->Some_0.done.id == (*old(stop_timer))->Some_0.done.id
             && ((*old(stop_timer))->Some_0.is_restart ==> r->Some_0.control is ContinueTryGracefulRestart)
-            && (!(*old(stop_timer))->Some_0.is_restart ==> r->Some_0.control is Stop), // OBL:C06+C07.recv.timer_control_carries_flag_and_kind
+            && (!(*old(stop_timer))->Some_0.is_restart ==> r->Some_0.control is Stop), // OBL:C06+C07+C09.recv.timer_control_carries_flag_and_kind
         // an expired timer is served first, before any queued message, and consumes nothing
         (*old(stop_timer)) is Some && (*old(stop_timer))->Some_0.until.t <= old(env).now@ ==> (*final(stop_timer)) is None
-            && is_prefix_grown(old(env).urgent@, final(env).urgent@) && is_prefix_grown(old(env).high@, final(env).high@) && is_prefix_grown(old(env).normal@, final(env).normal@), // OBL:C06.recv.expired_timer_first
+            && is_prefix_grown(old(env).urgent@, final(env).urgent@) && is_prefix_grown(old(env).high@, final(env).high@) && is_prefix_grown(old(env).normal@, final(env).normal@), // OBL:C06+C09.recv.expired_timer_first
         // while the timer stays armed it is unchanged, and the normal queue is never consumed
-        (*old(stop_timer)) is Some ==> is_prefix_grown(old(env).normal@, final(env).normal@), // OBL:C06+C08.recv.normal_held_back_while_armed
+        (*old(stop_timer)) is Some ==> is_prefix_grown(old(env).normal@, final(env).normal@), // OBL:C06+C08+C09.recv.normal_held_back_while_armed
         (*old(stop_timer)) is Some && (*final(stop_timer)) is Some ==> (*final(stop_timer))->Some_0.until == (*old(stop_timer))->Some_0.until
-            && (*final(stop_timer))->Some_0.done.id == (*old(stop_timer))->Some_0.done.id && (*final(stop_timer))->Some_0.is_restart == (*old(stop_timer))->Some_0.is_restart, // OBL:C06.recv.armed_timer_unchanged
-        (*old(stop_timer)) is None ==> (*final(stop_timer)) is None, // OBL:C06.recv.never_arms
+            && (*final(stop_timer))->Some_0.done.id == (*old(stop_timer))->Some_0.done.id && (*final(stop_timer))->Some_0.is_restart == (*old(stop_timer))->Some_0.is_restart, // OBL:C06+C09.recv.armed_timer_unchanged
+        (*old(stop_timer)) is None ==> (*final(stop_timer)) is None, // OBL:C06+C09.recv.never_arms
         // bounded wait: with an armed timer the call returns no later than the deadline (or at once if it already passed)
-        (*old(stop_timer)) is Some ==> final(env).now@ <= (if old(env).now@ >= (*old(stop_timer))->Some_0.until.t { old(env).now@ } else { (*old(stop_timer))->Some_0.until.t }) || (*final(stop_timer)) is Some, // OBL:C06.recv.kill_at_expiry
+        (*old(stop_timer)) is Some ==> final(env).now@ <= (if old(env).now@ >= (*old(stop_timer))->Some_0.until.t { old(env).now@ } else { (*old(stop_timer))->Some_0.until.t }) || (*final(stop_timer)) is Some, // OBL:C06+C09.recv.kill_at_expiry
         // while the timer stays armed only urgent or high-priority messages are handed out (given what the Job methods send with those priorities)
-        senders_ok(old(env).urgent@, old(env).high@) && (*final(stop_timer)) is Some && r is Some ==> urgent_class(r->Some_0.control) || high_class(r->Some_0.control), // OBL:C06.recv.only_urgent_or_high_while_armed
+        senders_ok(old(env).urgent@, old(env).high@) && (*final(stop_timer)) is Some && r is Some ==> urgent_class(r->Some_0.control) || high_class(r->Some_0.control), // OBL:C06+C09.recv.only_urgent_or_high_while_armed
         senders_kept(old(env), final(env)),
         final(env).now@ >= old(env).now@,
         // ---- ordering (C10), over the queue contents at entry ----
         !timer_expired(*old(stop_timer), old(env).now@) && old(env).urgent@.len() > 0 && (*final(stop_timer)) == (*old(stop_timer)) ==>
-            r is Some && r->Some_0 == old(env).urgent@[0], // OBL:C10.recv.urgent_first
+            r is Some && r->Some_0 == old(env).urgent@[0], // OBL:C10+C09+C07.recv.urgent_first
         !timer_expired(*old(stop_timer), old(env).now@) && old(env).urgent@.len() == 0 && old(env).high@.len() > 0 && (*final(stop_timer)) == (*old(stop_timer)) ==>
-            r is Some && (r->Some_0 == old(env).high@[0] || popped_from(old(env).urgent@, final(env).urgent@, r->Some_0)), // OBL:C10.recv.high_before_normal
+            r is Some && (r->Some_0 == old(env).high@[0] || popped_from(old(env).urgent@, final(env).urgent@, r->Some_0)), // OBL:C10+C09+C07.recv.high_before_normal
         // ---- ordering (C10), over the queue contents at the moment a message is taken (messages that arrived while the task was waiting included) ----
         (*final(stop_timer)) == (*old(stop_timer)) && r is Some ==> 0 <= final(env).picked@ <= 2,
-        (*final(stop_timer)) == (*old(stop_timer)) && r is Some && final(env).picked@ == 2 ==> final(env).urgent@.len() == 0 && final(env).high@.len() == 0, // OBL:C10.recv.a_normal_control_is_taken_only_when_nothing_more_urgent_is_pending
-        (*final(stop_timer)) == (*old(stop_timer)) && r is Some && final(env).picked@ == 1 ==> final(env).urgent@.len() == 0, // OBL:C10.recv.a_high_control_is_taken_only_when_no_urgent_one_is_pending
+        (*final(stop_timer)) == (*old(stop_timer)) && r is Some && final(env).picked@ == 2 ==> final(env).urgent@.len() == 0 && final(env).high@.len() == 0, // OBL:C10+C09+C07.recv.a_normal_control_is_taken_only_when_nothing_more_urgent_is_pending
+        (*final(stop_timer)) == (*old(stop_timer)) && r is Some && final(env).picked@ == 1 ==> final(env).urgent@.len() == 0, // OBL:C10+C09+C07.recv.a_high_control_is_taken_only_when_no_urgent_one_is_pending
         // whatever is returned from a queue is that queue's head and exactly that one message is removed; nothing else is reordered
-        (*final(stop_timer)) == (*old(stop_timer)) && r is Some ==> popped_head(old(env), final(env), r->Some_0), // OBL:C10.recv.pops_exactly_the_head
+        (*final(stop_timer)) == (*old(stop_timer)) && r is Some ==> popped_head(old(env), final(env), r->Some_0), // OBL:C10+C09+C07.recv.pops_exactly_the_head
 //@ prologue
 broadcast use prefix_trans, prefix_refl;
 //@ end
@@ -115,18 +115,18 @@ pub fn is_running(&self) -> (r: bool)
 pub fn spawn(&mut self, command: ArcCommand, mut spawnable: Spawnable, env: &mut Env) -> (r: Result<bool, IoError>)
     ensures
         // never a second process while one is owned: a running state is left alone and nothing is spawned
-        *old(self) is Running ==> r == Ok::<bool, IoError>(false) && *final(self) == *old(self) && *final(env) == *old(env), // OBL:C04.spawn.noop_while_running
+        *old(self) is Running ==> r == Ok::<bool, IoError>(false) && *final(self) == *old(self) && *final(env) == *old(env), // OBL:C04+C09.spawn.noop_while_running
         // otherwise exactly one spawn attempt, of the spawnable that was passed in
         !(*old(self) is Running) ==> pushed1(old(env), final(env)) && is_spawn(at(old(env), final(env), 0), spawnable.ver), // OBL:C09+C18.spawn.spawns_the_given_spawnable_once
         !(*old(self) is Running) && r is Ok ==> r == Ok::<bool, IoError>(true) && spawn_ok(at(old(env), final(env), 0)) && *final(self) is Running
             && running_cid(cs_view(final(self))) == spawn_cid(at(old(env), final(env), 0))
-            && final(env).live@ =~= old(env).live@.insert(running_cid(cs_view(final(self)))), // OBL:C04.spawn.owns_the_new_child
-        !(*old(self) is Running) && r is Err ==> !spawn_ok(at(old(env), final(env), 0)) && *final(self) == *old(self) && final(env).live == old(env).live, // OBL:C04.spawn.failure_leaves_state
+            && final(env).live@ =~= old(env).live@.insert(running_cid(cs_view(final(self)))), // OBL:C04+C09.spawn.owns_the_new_child
+        !(*old(self) is Running) && r is Err ==> !spawn_ok(at(old(env), final(env), 0)) && *final(self) == *old(self) && final(env).live == old(env).live, // OBL:C04+C09.spawn.failure_leaves_state
         final(env).raised == old(env).raised, final(env).now@ >= old(env).now@, senders_kept(old(env), final(env)),
 //@ item CommandState::reset
 //@ header
 pub fn reset(&mut self, env: &mut Env) -> (r: Self)
-    requires !(*old(self) is Running), // OBL:C04.reset.never_drops_a_live_child
+    requires !(*old(self) is Running), // OBL:C04+C09.reset.never_drops_a_live_child
     ensures
         *final(self) is Pending, // OBL:C09.reset.pending_after
         cs_view(&r) == cs_view(old(self)), // OBL:C09.reset.returns_the_retired_state
@@ -136,10 +136,10 @@ pub fn reset(&mut self, env: &mut Env) -> (r: Self)
 pub fn wait(&mut self, env: &mut Env) -> (r: Result<bool, IoError>)
     ensures
         !(*old(self) is Running) ==> r == Ok::<bool, IoError>(false) && *final(self) == *old(self) && *final(env) == *old(env), // OBL:C09.wait.noop_unless_running
-        *old(self) is Running ==> pushed1(old(env), final(env)) && is_wait(at(old(env), final(env), 0), running_cid(cs_view(old(self))), r is Ok), // OBL:C04.wait.one_reap_attempt
+        *old(self) is Running ==> pushed1(old(env), final(env)) && is_wait(at(old(env), final(env), 0), running_cid(cs_view(old(self))), r is Ok), // OBL:C04+C09.wait.one_reap_attempt
         *old(self) is Running && r is Ok ==> r == Ok::<bool, IoError>(true) && *final(self) is Finished && started_of(cs_view(final(self))) == started_of(cs_view(old(self)))
-            && final(env).live@ =~= old(env).live@.remove(running_cid(cs_view(old(self)))), // OBL:C04.wait.finished_only_after_reap
-        *old(self) is Running && r is Err ==> *final(self) == *old(self) && final(env).live == old(env).live, // OBL:C04.wait.failure_keeps_running
+            && final(env).live@ =~= old(env).live@.remove(running_cid(cs_view(old(self)))), // OBL:C04+C09.wait.finished_only_after_reap
+        *old(self) is Running && r is Err ==> *final(self) == *old(self) && final(env).live == old(env).live, // OBL:C04+C09.wait.failure_keeps_running
         final(env).raised == old(env).raised, final(env).now@ >= old(env).now@, senders_kept(old(env), final(env)),
 //@ item signal_child
 //@ header
@@ -182,11 +182,11 @@ broadcast use axiom_terminate_to_nix;
         // ---- C04 ----
         inv_live(&*final(command_state), final(env)), // OBL:C04+C05.control_handler.at_most_one_live_child
         // ---- C07: tickets ----
-        r is Normally ==> final(env).raised@.contains(done.id), // OBL:C07.control_handler.completed_control_resolves_its_ticket
-        r is Skip ==> parked(done.id, *final(stop_timer), final(on_end)@, *final(on_end_restart)), // OBL:C07.control_handler.deferred_ticket_is_parked
+        r is Normally ==> final(env).raised@.contains(done.id), // OBL:C07+C09.control_handler.completed_control_resolves_its_ticket
+        r is Skip ==> parked(done.id, *final(stop_timer), final(on_end)@, *final(on_end_restart)), // OBL:C07+C09.control_handler.deferred_ticket_is_parked
         r is Break ==> final(env).raised@.contains(done.id) && control is Delete, // OBL:C07+C08+C09.control_handler.only_delete_ends_the_job
         forall|f: int| (parked(f, *old(stop_timer), old(on_end)@, *old(on_end_restart)) || f == done.id) ==>
-            final(env).raised@.contains(f) || parked(f, *final(stop_timer), final(on_end)@, *final(on_end_restart)), // OBL:C07.control_handler.no_ticket_is_dropped
+            final(env).raised@.contains(f) || parked(f, *final(stop_timer), final(on_end)@, *final(on_end_restart)), // OBL:C07+C09.control_handler.no_ticket_is_dropped
         inv_restart(*final(stop_timer), *final(on_end_restart), final(env)), // OBL:C07.control_handler.restart_ticket_stays_covered
         // no ticket resolves that is neither this control's nor a wait-for-end ticket of a process that ended
         forall|f: int| final(env).raised@.contains(f) ==> old(env).raised@.contains(f) || f == done.id
@@ -320,7 +320,7 @@ fn wait_handler($STATE_PARAMS) -> (r: Loop)
         inv_live(&*final(command_state), final(env)), // OBL:C04+C05.wait_handler.at_most_one_live_child
         // every ticket parked in the task is resolved or still parked afterwards (none is dropped), whatever fails
         forall|f: int| parked(f, *old(stop_timer), old(on_end)@, *old(on_end_restart)) ==>
-            final(env).raised@.contains(f) || parked(f, *final(stop_timer), final(on_end)@, *final(on_end_restart)), // OBL:C07.wait_handler.no_ticket_is_dropped
+            final(env).raised@.contains(f) || parked(f, *final(stop_timer), final(on_end)@, *final(on_end_restart)), // OBL:C07+C09.wait_handler.no_ticket_is_dropped
         inv_restart(*final(stop_timer), *final(on_end_restart), final(env)), // OBL:C07.wait_handler.restart_ticket_stays_covered
         // only tickets that were waiting for this process to end are resolved, and only if it did end
         forall|f: int| final(env).raised@.contains(f) ==> old(env).raised@.contains(f)
@@ -342,7 +342,7 @@ $INV_SM
 //@ header
 pub fn cancelled(env: &mut Env) -> (r: Self)
     ensures
-        final(env).raised@.contains(r.job_gone.id) && final(env).raised@.contains(r.control_done.id), // OBL:C07.Ticket_cancelled.already_resolved
+        final(env).raised@.contains(r.job_gone.id) && final(env).raised@.contains(r.control_done.id), // OBL:C07+C09.Ticket_cancelled.already_resolved
         final(env).log == old(env).log, final(env).live == old(env).live, final(env).now == old(env).now,
         final(env).urgent == old(env).urgent, final(env).high == old(env).high, final(env).normal == old(env).normal,
         forall|f: int| old(env).raised@.contains(f) ==> final(env).raised@.contains(f),
@@ -350,9 +350,9 @@ pub fn cancelled(env: &mut Env) -> (r: Self)
 //@ header
 fn prepare_control(&self, control: Control, env: &mut Env) -> (r: (Ticket, ControlMessage))
     ensures
-        r.1.control == control, // OBL:C10.prepare_control.carries_the_control
-        r.0.control_done.id == r.1.done.id && r.0.job_gone.id == self.gone.id, // OBL:C07.prepare_control.ticket_watches_this_control_and_the_job
-        !old(env).raised@.contains(r.1.done.id), // OBL:C07.prepare_control.fresh_unraised_flag
+        r.1.control == control, // OBL:C10+C09+C07.prepare_control.carries_the_control
+        r.0.control_done.id == r.1.done.id && r.0.job_gone.id == self.gone.id, // OBL:C07+C09.prepare_control.ticket_watches_this_control_and_the_job
+        !old(env).raised@.contains(r.1.done.id), // OBL:C07+C09.prepare_control.fresh_unraised_flag
         *final(env) == *old(env),
 //@ item Job::send_controls
 //@ header
@@ -360,13 +360,13 @@ fn prepare_control(&self, control: Control, env: &mut Env) -> (r: (Ticket, Contr
 pub fn send_controls<const N: usize>(&self, controls: [Control; N], priority: Priority, env: &mut Env) -> (r: Ticket)
     requires wf_tx(&self.control_queue),
     ensures
-        job_sends(self, $ENVS, priority, controls@, r), // OBL:C10.send_controls.all_controls_in_order_same_priority
+        job_sends(self, $ENVS, priority, controls@, r), // OBL:C10+C09+C07.send_controls.all_controls_in_order_same_priority
 //@ loop 0 iter=vx_it
 let ghost vx_l = *env; let ghost vx_cs = controls@;
 invariant
     vx_it.seq() == vx_cs, 0 <= vx_it.index@ <= vx_cs.len(), wf_tx(&self.control_queue),
-    sent(&vx_l, env, priority, vx_cs.subrange(0, vx_it.index@ as int)), // OBL:C10.send_controls.inv_prefix_sent_in_order
-    vx_it.index@ > 0 ==> last_ticket is Some && ticket_for(last_ticket->Some_0, self, qp(env, priority).last()), // OBL:C10.send_controls.inv_ticket_is_the_last_sent
+    sent(&vx_l, env, priority, vx_cs.subrange(0, vx_it.index@ as int)), // OBL:C10+C09+C07.send_controls.inv_prefix_sent_in_order
+    vx_it.index@ > 0 ==> last_ticket is Some && ticket_for(last_ticket->Some_0, self, qp(env, priority).last()), // OBL:C10+C09+C07.send_controls.inv_ticket_is_the_last_sent
     vx_l.raised == env.raised,
 //@ end
 //@ item Job::control
@@ -484,7 +484,7 @@ fn job_task(command: ArcCommand, mut receiver: PriorityReceiver, done: Flag, env
     ensures
         // when the job task ends (Delete, or every handle dropped and nothing running) the job's `gone` flag is raised, which resolves
         // every outstanding ticket of the job (Ticket::poll watches job_gone)
-        final(env).raised@.contains(done.id), // OBL:C07.job_task.gone_raised_when_the_task_ends
+        final(env).raised@.contains(done.id), // OBL:C07+C09.job_task.gone_raised_when_the_task_ends
 //@ loop 0
 invariant
     wf_rx(&receiver), // OBL:C10.job_task.receiver_wellformed
